@@ -660,6 +660,23 @@ func runC11(c *mon.Ctx) {
 						}
 					}
 				}
+				// an auth-event list that does not hold the create event (the state sets do): the resolver finds it there, and
+				// what comes back is a state - the agreed keys in it (tenth seeding round, C11-T: the look into the state
+				// lists was made only for an EMPTY auth list, every other such call resolved to nothing)
+				if t.StateRes != 1 {
+					var noCreate []gmsl.PDU
+					for _, a := range authList {
+						if a.Type() != "m.room.create" {
+							noCreate = append(noCreate, a)
+						}
+					}
+					if len(noCreate) > 0 && len(noCreate) < len(authList) {
+						if got, err := gmsl.ResolveConflicts(ver, flat, noCreate, userIDForSender, noRej); err == nil {
+							c.Count("deprecated_resolutions_without_the_create_event_among_the_auth_events")
+							checkWellFormed(c, "ResolveConflicts(auth events without the create event)", ver, got, sc.stateSets, supplied)
+						}
+					}
+				}
 				// the low-level deprecated functions with explicit conflicted / unconflicted lists
 				conf, unconf := splitLikeCaller(flat)
 				if t.StateRes == 1 {
